@@ -46,6 +46,7 @@ def main():
         subprocess.check_call(["rsync", "-a", "--exclude", "target", "--exclude", ".git", REPO + "/", scratch + "/"])
         env = dict(os.environ, NOODLES_REPO=scratch, VERIF_EVIDENCE_DIR=evdir,
                    VERIF_CACHE=os.path.join(VERIF, ".cache-selftest"))
+        work = []
         for kind in ("mutants", "equivalent"):
             d = os.path.join(HERE, kind)
             if not os.path.isdir(d):
@@ -55,6 +56,26 @@ def main():
                     continue
                 path = os.path.join(d, name)
                 props, expect = header(path)
+                work.append((kind, name, path, props, expect))
+        # the independently seeded changes: expectations come from their meta.json (detected_by); a seed that no check of
+        # its own property reports is listed there under missed_by and is expected to stay silent for that property
+        sd = os.path.join(VERIF, "seeded")
+        for name in sorted(os.listdir(sd)) if os.path.isdir(sd) else []:
+            label = "seeded/" + name
+            if rx and not rx.search(label):
+                continue
+            import json
+            meta = json.load(open(os.path.join(sd, name, "meta.json")))
+            det = meta.get("detected_by") or {}
+            props = sorted(det)
+            expect = []
+            for p_, keys_ in det.items():
+                for k_ in keys_:
+                    expect.append("/".join(k_.split(" ")[0].split("/")[:2]).rstrip("."))
+            if props:
+                work.append(("mutants", label, os.path.join(sd, name, "patch.diff"), props, expect))
+        for kind, name, path, props, expect in work:
+            if True:
                 r = subprocess.run(["patch", "-p1", "-s", "-i", path], cwd=scratch, stdout=subprocess.PIPE,
                                    stderr=subprocess.STDOUT, text=True)
                 if r.returncode != 0:
